@@ -6,6 +6,7 @@ import (
 	"go/ast"
 	"go/token"
 	"go/types"
+	"regexp"
 	"os"
 	"path/filepath"
 	"sort"
@@ -174,83 +175,109 @@ func ruleUnionTagDecision(c *core.Ctx) {
 	c.Rule(rule, "python/ndjson and cpp/ndjson decide whether a union is written untagged with the same procedure: kinds := GetJsonDataType(case); if kinds & seen != 0 → tagged; seen |= kinds (in case order)", 2)
 	gj, _, _ := c.Func("internal/ndjsoncommon", "GetJsonDataType")
 	for _, site := range [][2]string{{"internal/python/ndjson", "typeConverter"}, {"internal/cpp/ndjson", "writeUnionConverters"}} {
-		_, d, p := c.Func(site[0], site[1])
+		sf, sd, p := c.Func(site[0], site[1])
 		key := site[0] + "." + site[1]
-		if d == nil || gj == nil {
+		if sd == nil || gj == nil {
 			c.Undecided(rule, "anchor/"+key, 0, "anchor function not found")
 			continue
 		}
 		info := p.TypesInfo
 		found := false
-		ast.Inspect(d.Body, func(n ast.Node) bool {
-			rs, ok := n.(*ast.RangeStmt)
-			if !ok {
-				return true
+		// the procedure may live in the generator function itself or in a helper of the package it reaches
+		reach := c.Reachable([]*types.Func{sf}, func(f *types.Func) bool { return f.Pkg() != p.Types })
+		for f := range reach {
+			if f.Pkg() != p.Types {
+				continue
 			}
-			// this := GetJsonDataType(c.Type)
-			var this types.Object
-			ast.Inspect(rs.Body, func(m ast.Node) bool {
-				if as, ok := m.(*ast.AssignStmt); ok && len(as.Rhs) == 1 && len(as.Lhs) == 1 {
-					if ce, ok := as.Rhs[0].(*ast.CallExpr); ok {
-						if f := core.Callee(info, ce); f != nil && f.Origin() == gj {
-							this = identObj(info, as.Lhs[0])
+			d := c.Decl(f)
+			if d == nil {
+				continue
+			}
+			ast.Inspect(d.Body, func(n ast.Node) bool {
+				var body *ast.BlockStmt
+				switch l := n.(type) {
+				case *ast.RangeStmt:
+					body = l.Body
+				case *ast.ForStmt:
+					body = l.Body
+				default:
+					return true
+				}
+				// this := GetJsonDataType(c.Type)
+				var this types.Object
+				ast.Inspect(body, func(m ast.Node) bool {
+					if as, ok := m.(*ast.AssignStmt); ok && len(as.Rhs) == 1 && len(as.Lhs) == 1 {
+						if ce, ok := as.Rhs[0].(*ast.CallExpr); ok {
+							if f := core.Callee(info, ce); f != nil && f.Origin() == gj {
+								this = identObj(info, as.Lhs[0])
+							}
 						}
 					}
+					return true
+				})
+				if this == nil {
+					return true
+				}
+				var seen types.Object
+				testOK, accAfter := false, false
+				var testPos token.Pos
+				for _, st := range flattenStmts(body.List) {
+					switch s := st.(type) {
+					case *ast.IfStmt:
+						be, ok := ast.Unparen(s.Cond).(*ast.BinaryExpr)
+						if !ok || be.Op != token.NEQ {
+							continue
+						}
+						// kinds & seen != 0 (either operand order, zero on either side)
+						var and *ast.BinaryExpr
+						var zeroSide ast.Expr
+						if a, ok := ast.Unparen(be.X).(*ast.BinaryExpr); ok && a.Op == token.AND {
+							and, zeroSide = a, be.Y
+						} else if a, ok := ast.Unparen(be.Y).(*ast.BinaryExpr); ok && a.Op == token.AND {
+							and, zeroSide = a, be.X
+						}
+						if and == nil {
+							continue
+						}
+						a, b := identObj(info, and.X), identObj(info, and.Y)
+						zero, isZero := constInt(info, zeroSide)
+						if isZero && zero == 0 && (a == this || b == this) && a != b {
+							other := a
+							if a == this {
+								other = b
+							}
+							if v, ok := other.(*types.Var); ok && !strings.HasPrefix(v.Name(), "Json") && other.Pkg() == p.Types {
+								seen = other
+								testOK = true
+								testPos = s.Pos()
+							}
+						}
+					case *ast.AssignStmt:
+						if len(s.Lhs) == 1 && len(s.Rhs) == 1 && seen != nil && identObj(info, s.Lhs[0]) == seen {
+							acc := false
+							if s.Tok == token.OR_ASSIGN && identObj(info, s.Rhs[0]) == this {
+								acc = true // seen |= kinds
+							}
+							if s.Tok == token.ASSIGN { // seen = seen | kinds (either operand order)
+								if or, ok := ast.Unparen(s.Rhs[0]).(*ast.BinaryExpr); ok && or.Op == token.OR {
+									a, b := identObj(info, or.X), identObj(info, or.Y)
+									acc = (a == seen && b == this) || (a == this && b == seen)
+								}
+							}
+							if acc && testOK && s.Pos() > testPos {
+								accAfter = true
+							}
+						}
+					}
+				}
+				if testOK {
+					found = true
+					c.Check(accAfter, rule, key+"/overlap test then accumulate", n.Pos(), "`kinds & seen != 0` is tested before `seen |= kinds`", "the overlap test is not followed by `seen |= kinds`: later cases are never compared with earlier ones")
 				}
 				return true
 			})
-			if this == nil {
-				return true
-			}
-			var seen types.Object
-			testOK, accAfter := false, false
-			var testPos token.Pos
-			for _, st := range flattenStmts(rs.Body.List) {
-				switch s := st.(type) {
-				case *ast.IfStmt:
-					if be, ok := s.Cond.(*ast.BinaryExpr); ok && be.Op == token.NEQ {
-						if and, ok := ast.Unparen(be.X).(*ast.BinaryExpr); ok && and.Op == token.AND {
-							a, b := identObj(info, and.X), identObj(info, and.Y)
-							zero, isZero := constInt(info, be.Y)
-							if isZero && zero == 0 && (a == this || b == this) && a != b {
-								other := a
-								if a == this {
-									other = b
-								}
-								if v, ok := other.(*types.Var); ok && !strings.HasPrefix(v.Name(), "Json") && other.Pkg() == p.Types {
-									// the body must turn off "simplified"
-									seen = other
-									testOK = true
-									testPos = s.Pos()
-								}
-							}
-						}
-					}
-				case *ast.AssignStmt:
-					if len(s.Lhs) == 1 && len(s.Rhs) == 1 && seen != nil && identObj(info, s.Lhs[0]) == seen {
-						acc := false
-						if s.Tok == token.OR_ASSIGN && identObj(info, s.Rhs[0]) == this {
-							acc = true // seen |= kinds
-						}
-						if s.Tok == token.ASSIGN { // seen = seen | kinds (either operand order)
-							if or, ok := ast.Unparen(s.Rhs[0]).(*ast.BinaryExpr); ok && or.Op == token.OR {
-								a, b := identObj(info, or.X), identObj(info, or.Y)
-								acc = (a == seen && b == this) || (a == this && b == seen)
-							}
-						}
-						if acc && testOK && s.Pos() > testPos {
-							accAfter = true
-						}
-					}
-				}
-			}
-			if testOK {
-				found = true
-				c.Check(accAfter, rule, key+"/overlap test then accumulate", rs.Pos(), "`kinds & seen != 0` is tested before `seen |= kinds`", "the overlap test is not followed by `seen |= kinds`: later cases are never compared with earlier ones")
-			}
-			return true
-		})
-		c.Check(found, rule, key+"/overlap test", d.Pos(), "decides tagged/untagged by `GetJsonDataType(case) & seen != 0`", "no `GetJsonDataType(case) & seen != 0` test found over the union cases: the tagged/untagged decision no longer follows the shared rule")
+		}
+		c.Check(found, rule, key+"/overlap test", sd.Pos(), "decides tagged/untagged by `GetJsonDataType(case) & seen != 0`", "no `GetJsonDataType(case) & seen != 0` test found over the union cases: the tagged/untagged decision no longer follows the shared rule")
 	}
 }
 
@@ -272,71 +299,144 @@ func flattenStmts(list []ast.Stmt) []ast.Stmt {
 
 // J3: the reader-side type tests enumerate the same six kinds: each `x & JsonK != 0`
 // branch pairs the kind constant with the right target-language test.
+// per generator package: JSON kind -> tokens of the reader-side test for that kind
 var kindNames = map[string]map[string][]string{
-	"internal/python/ndjson.typeConverter": {
+	"internal/python/ndjson": {
 		"JsonNull": {"None"}, "JsonBoolean": {"bool"}, "JsonNumber": {"int", "float"}, "JsonString": {"str"}, "JsonArray": {"list"}, "JsonObject": {"dict"},
 	},
-	"internal/cpp/ndjson.getTypeCheck": {
-		"JsonNull": {"%s.is_null()"}, "JsonBoolean": {"%s.is_boolean()"}, "JsonNumber": {"%s.is_number()"}, "JsonString": {"%s.is_string()"}, "JsonArray": {"%s.is_array()"}, "JsonObject": {"%s.is_object()"},
+	"internal/cpp/ndjson": {
+		"JsonNull": {"is_null"}, "JsonBoolean": {"is_boolean"}, "JsonNumber": {"is_number"}, "JsonString": {"is_string"}, "JsonArray": {"is_array"}, "JsonObject": {"is_object"},
 	},
 }
 
+var wordRe = regexp.MustCompile(`[A-Za-z_]+`)
+
+// J3: wherever a generator pairs a JSON kind bit with text of the target language — the body of
+// `if kinds&JsonX != 0 { ... "text" ... }`, or a table row `{JsonX, "text"}` that a loop tests with
+// `kinds&row.kind != 0` — the text is the test for that kind.
 func ruleKindTests(c *core.Ctx) {
 	const rule = "J3"
 	c.Rule(rule, "the emitted reader-side type tests pair each JSON kind bit with the matching test of the target language (python: None/bool/int,float/str/list/dict; C++: is_null/is_boolean/is_number/is_string/is_array/is_object)", 12)
-	for fq, want := range kindNames {
-		i := strings.LastIndex(fq, ".")
-		_, d, p := c.Func(fq[:i], fq[i+1:])
-		if d == nil {
-			c.Undecided(rule, "anchor/"+fq, 0, "anchor function not found")
+	for pkgRel, want := range kindNames {
+		p := c.Pkg(pkgRel)
+		if p == nil {
+			c.Undecided(rule, "anchor/"+pkgRel, 0, "package not found")
 			continue
 		}
 		info := p.TypesInfo
-		seen := map[string]bool{}
-		ast.Inspect(d.Body, func(n ast.Node) bool {
-			is, ok := n.(*ast.IfStmt)
-			if !ok {
-				return true
-			}
-			be, ok := is.Cond.(*ast.BinaryExpr)
-			if !ok || be.Op != token.NEQ {
-				return true
-			}
-			and, ok := ast.Unparen(be.X).(*ast.BinaryExpr)
-			if !ok || and.Op != token.AND {
-				return true
-			}
-			var kind string
-			for _, e := range []ast.Expr{and.X, and.Y} {
-				if sel, ok := ast.Unparen(e).(*ast.SelectorExpr); ok {
-					if k, ok := info.Uses[sel.Sel].(*types.Const); ok && strings.HasPrefix(k.Name(), "Json") {
-						kind = k.Name()
-					}
-				}
-			}
-			if kind == "" {
-				return true
-			}
-			var lits []string
-			ast.Inspect(is.Body, func(m ast.Node) bool {
-				if bl, ok := m.(*ast.BasicLit); ok && bl.Kind == token.STRING {
-					if s, err := strconv.Unquote(bl.Value); err == nil {
-						lits = append(lits, s)
+		kindOf := func(e ast.Expr) string {
+			k := ""
+			ast.Inspect(e, func(n ast.Node) bool {
+				if sel, ok := n.(*ast.SelectorExpr); ok {
+					if kc, ok := info.Uses[sel.Sel].(*types.Const); ok && strings.HasPrefix(kc.Name(), "Json") && kc.Pkg() != nil && strings.HasSuffix(kc.Pkg().Path(), "/ndjsoncommon") {
+						k = kc.Name()
 					}
 				}
 				return true
 			})
-			seen[kind] = true
+			return k
+		}
+		litsOf := func(n ast.Node) []string {
+			var lits []string
+			ast.Inspect(n, func(m ast.Node) bool {
+				if bl, ok := m.(*ast.BasicLit); ok && bl.Kind == token.STRING {
+					if s, err := strconv.Unquote(bl.Value); err == nil {
+						lits = append(lits, wordRe.FindAllString(s, -1)...)
+					}
+				}
+				return true
+			})
 			sort.Strings(lits)
+			return lits
+		}
+		seen := map[string]bool{}
+		check := func(kind string, lits []string, pos token.Pos, where string) {
 			w := append([]string(nil), want[kind]...)
 			sort.Strings(w)
-			c.Check(strings.Join(lits, ",") == strings.Join(w, ","), rule, fq+"/"+kind, is.Pos(), kind+" → "+strings.Join(lits, ","),
-				fmt.Sprintf("kind %s is paired with %v, expected %v: values of that kind are dispatched to the wrong union case", kind, lits, want[kind]))
-			return true
-		})
+			// words such as the receiver placeholder are ignored: the test tokens must all be present and no
+			// token of another kind may be
+			var got []string
+			for _, l := range lits {
+				for _, toks := range want {
+					for _, t := range toks {
+						if l == t {
+							got = append(got, l)
+						}
+					}
+				}
+			}
+			got = uniq(got)
+			sort.Strings(got)
+			seen[kind] = true
+			c.Check(strings.Join(got, ",") == strings.Join(w, ","), rule, pkgRel+"/"+kind, pos, kind+" → "+strings.Join(got, ",")+" ("+where+")",
+				fmt.Sprintf("kind %s is paired with %v, expected %v: values of that kind are dispatched to the wrong union case", kind, got, want[kind]))
+		}
+		for _, f := range p.Syntax {
+			if c.IsTestFile(f.Pos()) {
+				continue
+			}
+			ast.Inspect(f, func(n ast.Node) bool {
+				switch x := n.(type) {
+				case *ast.IfStmt:
+					be, ok := ast.Unparen(x.Cond).(*ast.BinaryExpr)
+					if !ok || (be.Op != token.NEQ && be.Op != token.EQL) {
+						return true
+					}
+					var and *ast.BinaryExpr
+					for _, side := range []ast.Expr{be.X, be.Y} {
+						if a, ok := ast.Unparen(side).(*ast.BinaryExpr); ok && a.Op == token.AND {
+							and = a
+						}
+					}
+					if and == nil {
+						return true
+					}
+					kind := kindOf(and)
+					if kind == "" {
+						return true
+					}
+					body := ast.Node(x.Body)
+					if be.Op == token.EQL { // `if kinds&K == 0 { continue }` style: the text follows in the else branch / is not here
+						if x.Else == nil {
+							return true
+						}
+						body = x.Else
+					}
+					if lits := litsOf(body); len(lits) > 0 {
+						check(kind, lits, x.Pos(), "if")
+					}
+				case *ast.CompositeLit:
+					// a table row: exactly one kind constant next to string literals, directly among the elements
+					if len(x.Elts) < 2 {
+						return true
+					}
+					kind, nk := "", 0
+					for _, el := range x.Elts {
+						v := el
+						if kv, ok := el.(*ast.KeyValueExpr); ok {
+							v = kv.Value
+						}
+						if _, isLit := v.(*ast.CompositeLit); isLit {
+							return true // an outer literal (the table itself)
+						}
+						if k := kindOf(v); k != "" {
+							kind = k
+							nk++
+						}
+					}
+					if nk != 1 {
+						return true
+					}
+					if lits := litsOf(x); len(lits) > 0 {
+						check(kind, lits, x.Pos(), "table row")
+					}
+				}
+				return true
+			})
+		}
 		for k := range want {
 			if !seen[k] {
-				c.Bad(rule, fq+"/"+k, d.Pos(), "no branch for JSON kind "+k)
+				c.Bad(rule, pkgRel+"/"+k, 0, "no test text paired with JSON kind "+k)
 			}
 		}
 	}
